@@ -120,7 +120,7 @@ _c09_a = ("none: concrete history (heap traffic depends on control flow, not on 
           "one real-time section: all getters, call, set_resample_ratio_relative(0.75, ramp), masked call [true,false], set_chunk_size(2), all-masked call, reset, call, getters")
 _c09_b = ("set_resample_ratio argument and set_resample_ratio_relative argument: every f64 (NaN/inf, accepted or rejected); ramp; set_chunk_size: every usize; mask entry; first channel length in [0, max] (error path and success path)",
           "fresh instance; one real-time section: both setters, set_chunk_size, one call, getters")
-def _c09(name, typ, part, stubs=(), cap=480, witness=False):
+def _c09(name, typ, part, stubs=(), cap=720, witness=False):
     sym, sec = (_c09_a if part == "a" else _c09_b)
     HARNESSES[name] = H("c09", ["C09"], cap=cap, sym=sym, bounds=typ + "; " + sec,
                         stubs=ALLOC_STUBS + list(stubs), untagged="C09", witness=witness, mem=6)
@@ -169,7 +169,7 @@ _c10("c10_witness", "no reset before the comparison: must FAIL (vacuity witness)
 def _c16(name, bounds, sym, stubs=(), cap=600, witness=False, tier="quick", mod="c16"):
     HARNESSES[name] = H(mod, ["C16"], cap=cap, sym=sym, bounds=bounds, stubs=stubs, untagged="C16", witness=witness, mem=(7 if stubs else 4), tier=tier, thorough_cap=5400)
 _pv = "mask: None or Some([m0,m1]) symbolic; inactive channels are passed empty input slices"
-_c16("c16_process_ffo", "FastFixedOut<f64> Nearest chunk 2, 2 ch, fresh; process() vs process_into_buffer() on a twin, index-signal input", _pv)
+_c16("c16_process_ffo", "FastFixedOut<f64> Nearest chunk 2, 2 ch, fresh; process() vs process_into_buffer() on a twin, index-signal input", _pv, cap=900)
 _c16("c16_process_sfi", "SincFixedIn<f64>+Probe(2,1) Nearest chunk 6, 2 ch (estimate larger than written count: truncation)", _pv, tier="thorough")
 _c16("c16_process_ftio", "FftFixedInOut<f64> 2->3 chunk 2, 2 ch", _pv, stubs=FFT_STUBS, tier="thorough")
 _pp = "partial lengths l0 in [1,next), l1 in [0,next) independent; mask None/Some([true,m1]); masked channel may be empty"
@@ -185,7 +185,7 @@ _c16("c16_none_fti", "FftFixedIn<f64> 2->3 chunk 3, 1 ch; one call, then None x2
 _c16("c16_partial_alloc_ffo", "FastFixedOut<f64> chunk 2, 1 ch; process_partial(Some|None) vs process_partial_into_buffer on a twin", "Some/None; partial length in [1,5]")
 _c16("c16_vec_setters_getters", "Box<dyn VecResampler<f64>> over FastFixedOut (orig 0.75, max 2) vs the concrete type through Resampler::", "setter argument: every f64; ramp; absolute/relative", mod="c16v")
 for _n, _what in (("into", "process_into_buffer"), ("process", "process"), ("partial", "process_partial_into_buffer(Some)"), ("process_partial", "process_partial(None)")):
-    _c16("c16_vec_" + _n, "Box<dyn VecResampler<f64>> over FastFixedOut chunk 2: %s through the object vs the concrete type" % _what, "none (concrete)", mod="c16v")
+    _c16("c16_vec_" + _n, "Box<dyn VecResampler<f64>> over FastFixedOut chunk 2: %s through the object vs the concrete type" % _what, "none (concrete)", mod="c16v", cap=900)
 _c16("c16_witness", "twins of different ratio: must FAIL (vacuity witness)", "none", witness=True)
 
 # ---------------------------------------------------------------- C11: channel independence and masks
@@ -296,7 +296,7 @@ HARNESSES["c10_ffo_ctor_ratio"] = H("c03x", ["C10", "C04"], cap=1200, mem=6, unt
 _c06("c06_ffi_change_grid", ["C06"], "FastFixedIn<f64> Linear chunk 8, max_rel 1.5; 2 warm-up calls at ratio 1; setter + 1 call (variable number of frames)", "new ratio k/32 (D_grid); ramp bool", tier="thorough")
 _c06("c06_sfi_change_grid", ["C06"], "SincFixedIn<f64>+Probe(8,2) Linear chunk 8, max_rel 1.5; 2 warm-up calls; setter + 1 call; strict probe", "new ratio k/32 (D_grid); ramp bool", tier="thorough")
 _c06("c06_sfo_after_ramp_grid", ["C06"], "SincFixedOut<f64>+Probe(8,2) Linear chunk 3: 2 warm-up calls, ramped change, the ramp chunk, then the chunk AFTER the ramp: spacing == 1/new from its first frame, windows on supplied data", "new ratio k/32 (D_grid), ramp = true")
-_c06("c07_ffi_slow", ["C07"], "FastFixedIn<f64> Linear chunk 8, original ratio 0.1 (1/r > 7): ratio set once, 6 calls; uniform spacing across chunk boundaries, lag bound", "ratio k/1024 in [0.08, 0.125]")
+_c06("c07_ffi_slow", ["C07"], "FastFixedIn<f64> Linear chunk 7, constant ratio 0.1 (1/r = 10 > 7), 8 calls from the fresh state: uniform spacing across chunk boundaries, lag bound, at least 4 frames observed", "none (concrete slow ratio; the solver decides the safety checks and the float comparisons)")
 _c06("c08_ffo_cubic_poly", ["C08"], "FastFixedOut<f64> Cubic chunk 3: input is a cubic polynomial of the frame index; 2 calls; every frame inside the stream equals the polynomial at -4+(j+1)/r within 1e-9", "ratio k/32 (D_grid)", tier="thorough")
 for _n, _t in (("c03_ffo_two_steps", "FastFixedOut<f64> Nearest chunk 2"), ("c03_sfo_two_steps", "SincFixedOut<f64>+Probe(8,1) Nearest chunk 2"), ("c03_ffi_two_steps", "FastFixedIn<f64> Nearest chunk 2 (4 warm-up calls; k/32 grid)")):
     HARNESSES[_n] = H("c03", ["C03", "C04"], tier="thorough", cap=3600, thorough_cap=7200, mem=8,
@@ -304,8 +304,8 @@ for _n, _t in (("c03_ffo_two_steps", "FastFixedOut<f64> Nearest chunk 2"), ("c03
 for _n, _t in (("c03_ffo_reset_step", "FastFixedOut<f64> Nearest chunk 2"), ("c03_sfo_reset_step", "SincFixedOut<f64>+Probe(8,1) Nearest chunk 2")):
     HARNESSES[_n] = H("c03", ["C03", "C04"], cap=900, sym="post-reset ratio change k/32 (D_grid); ramp; surplus lengths",
         bounds=_t + ", max_rel 2: ratio 0.5 + call, reset(), symbolic setter + call, one more call; region [base]")
-HARNESSES["c07_fto_2_3_2_1"] = H("c07f", ["C07", "C04"], cap=900, mem=7, stubs=FFT_STUBS, untagged="C04", props_thorough=["C03"],
-    sym="caller buffer surplus lengths in [0,1]", bounds="FftFixedOut::<f64>::new(2, 3, 2, 1, 1): FFT block (3) larger than the output chunk (2): some calls need no input; 4 calls")
+HARNESSES["c07_fto_2_3_1_1"] = H("c07f", ["C07", "C04"], cap=900, mem=7, stubs=FFT_STUBS, untagged="C04", props_thorough=["C03"],
+    sym="caller buffer surplus lengths in [0,1]", bounds="FftFixedOut::<f64>::new(2, 3, 1, 1, 1): FFT block (3) three times the output chunk (1): some calls need no input; 4 calls")
 for _n, _d, _r in (("c08_ffi_quintic_line", "Quintic", "1.6"), ("c08_ffi_septic_line", "Septic", "0.8"), ("c08_ffi_cubic_line", "Cubic", "2.0")):
     _c06(_n, ["C08"], "FastFixedIn<f64> %s chunk 8, constant ratio %s, 3 calls on the index signal: every frame inside the stream sits at -4+(j+1)/ratio (window selection; a line is reproduced exactly by every degree >= 1)" % (_d, _r),
          "none (concrete ratio with non-integer instants; the solver decides the safety checks and the equalities)")
@@ -335,3 +335,10 @@ HARNESSES["c03_ffi_big_jump_kf"] = H("c03x", ["C03", "C04"], cap=600, mem=6, sym
     bounds="FastFixedIn<f64> Nearest chunk 2, range [1/8, 8]: 6 calls at 1/8, set_resample_ratio(2.0, false), 1 call; region [recip_span_ge3] (recorded finding F5)")
 HARNESSES["c03_ffi_big_jump_kf"]["untagged_region"] = "recip_span_ge3"
 HARNESSES["c03_ffi_big_jump"]["tier"] = "thorough"
+
+HARNESSES["c17_real_new_20"]["tier"] = "thorough"
+HARNESSES["c17_real_new_20"]["thorough_cap"] = 5400
+
+for _n in ("c10_fto_2", "c10_fto_mult_2", "c10_fti_2", "c10_ffo_ctor_ratio"):
+    HARNESSES[_n]["tier"] = "thorough"
+    HARNESSES[_n]["thorough_cap"] = 3600
